@@ -182,11 +182,28 @@ fn check_extension(x: &Dec, k: u64) -> Vec<Violation> {
     out
 }
 
+fn v_(what: String, want: u64, obs: String) -> Violation {
+    Violation::new("digits", "wrong_value", json!({"op": "pow2", "what": what}), want.to_string(), obs)
+}
+
 fn replay(case: &Value) -> Vec<Violation> {
     match case["op"].as_str().unwrap() {
         "accessors" => check_accessors(&jd(&case["x"])),
         "normalized" => check_normalized(&jd(&case["x"])).into_iter().collect(),
         "pow10" => check_pow10(case["k"].as_u64().unwrap()),
+        "pow2" => {
+            // "2^n+d"
+            let w = case["what"].as_str().unwrap();
+            let (n, d) = w[2..].split_at(w[2..].find(|c| c == '+' || c == '-').unwrap());
+            let v = (BigInt::from(1) << n.parse::<usize>().unwrap()) + d.parse::<i64>().unwrap();
+            let want = ndigits(&v);
+            let b = BigDecimal::new(v, 7);
+            if b.digits() != want || b.to_ref().count_digits() != want {
+                vec![v_(w.to_string(), want, format!("digits()={}", b.digits()))]
+            } else {
+                vec![]
+            }
+        }
         "extend" => check_extension(&jd(&case["x"]), case["k"].as_u64().unwrap()),
         "normalized_twins" => {
             let (a, b) = (jd(&case["x"]), jd(&case["y"]));
@@ -208,7 +225,8 @@ fn main() {
     }
     let tier = run.tier();
     run.rule("S1: every k in 0..=K: 10^k built by the subject (with_scale, with_prec, with_scale down) equals the model's string-built power, digits()/count_digits() of 10^k, 10^k-1, 10^k+1 equal their string lengths; S2: every small decimal x every constructor x every accessor returns the stored pair verbatim; S3: normalized() is the canonical pair (and identical for value-equal twins); S4: scale/precision extension multiplies by the exact power; non-trivial = everything except scale-0 single-digit inputs; cases distinct by construction");
-    let kmax: u64 = 5000;
+    // (the property's stated range is k <= 5000; the sweep continues beyond it because it is cheap)
+    let kmax: u64 = tier.pick(10_000, 30_000);
     run.bound("S1_k_max", kmax);
     run.par("S1 powers of ten 10^k, 10^k-1, 10^k+1", (kmax + 1) as usize, |k| {
         let mut t = Tally::default();
@@ -220,6 +238,36 @@ fn main() {
         }
         if k % 1000 == 590 {
             run.sample(|| json!({"op": "pow10", "k": k, "what": "10^k"}));
+        }
+        t
+    });
+
+    // S1b: digit counting at every power of two 2^n-1, 2^n, 2^n+1 (bit-length based estimates change here)
+    let nbits: usize = tier.pick(36_000, 100_000);
+    run.bound("S1b_powers_of_two", format!("2^n-1, 2^n, 2^n+1 for n <= {}", nbits));
+    run.par("S1b digit counts at powers of two", nbits / 50 + 1, |blk| {
+        let mut t = Tally::default();
+        for n in (blk * 50)..((blk + 1) * 50).min(nbits + 1) {
+            let p2 = BigInt::from(1) << n;
+            for d in [-1i64, 0, 1] {
+                let v = &p2 + d;
+                if v.is_zero() {
+                    continue;
+                }
+                t.states += 1;
+                t.transitions += 2;
+                t.nontrivial += 1;
+                let want = ndigits(&v);
+                let got = guard(|| {
+                    let b = BigDecimal::new(v.clone(), 7);
+                    (b.digits(), b.to_ref().count_digits())
+                });
+                match got {
+                    Ok((a, b)) if a == want && b == want => {}
+                    Ok((a, b)) => run.report(v_(format!("2^{}{:+}", n, d), want, format!("digits()={} count_digits()={}", a, b))),
+                    Err(e) => run.report(v_(format!("2^{}{:+}", n, d), want, e)),
+                }
+            }
         }
         t
     });
